@@ -26,7 +26,7 @@ func init() {
 			"goroutine identity is the address of the runtime g (read by a 3-instruction assembly stub)",
 			"the race-detector batch does not see memory accesses made by assembly kernels",
 		},
-		ProbesWant: []string{"len<16*workers", "len-not-multiple-of-16", "workers>units", "reconstruct-under-schedule", "vandermonde-singular-same-as-single"},
+		ProbesWant: []string{"len<16*workers", "len-not-multiple-of-16", "workers>units", "reconstruct-under-schedule", "vandermonde-singular-same-as-single", "shard>=64KiB"},
 	})
 }
 
@@ -96,8 +96,20 @@ func coderSchedules(r *Run) {
 	if t.Bool(1, 4, "odd-len") {
 		length = 2 * (1 + t.Draw(160, "len2"))
 	}
+	big := false
+	if t.Bool(1, 25, "long-shards") {
+		// shards far beyond any cache-blocking threshold
+		length = []int{65536, 65538, 70000, 131072, 204800, 1 << 20}[t.Draw(6, "long-len")]
+		d = 1 + t.Draw(4, "long-d")
+		p = 1 + t.Draw(3, "long-p")
+		big = true
+		r.Probe("shard>=64KiB")
+	}
 	units := (length + 15) / 16
 	g := 1 + t.Draw(units+3, "goroutines")
+	if big {
+		g = []int{2, 3, 4, 8, 16, 64}[t.Draw(6, "long-g")]
+	}
 	if t.Bool(1, 10, "many-goroutines") {
 		g = []int{16, 31, 64, 200}[t.Draw(4, "g-many")]
 	}
@@ -110,7 +122,21 @@ func coderSchedules(r *Run) {
 	if length%16 != 0 {
 		r.Probe("len-not-multiple-of-16")
 	}
+	coders := map[int]rsec16.Coder{}
+	fresh := t.Bool(1, 2, "fresh-coder-per-call")
 	mk := func(g int) rsec16.Coder {
+		// half of the runs reuse one Coder value for all calls with the
+		// same goroutine count (a Coder is documented as an immutable
+		// value; state leaking between calls would show here)
+		if c, ok := coders[g]; ok && !fresh {
+			return c
+		}
+		c := mk0(r, kind, d, p, g)
+		coders[g] = c
+		return c
+	}
+	_ = mk
+	mkOld := func(g int) rsec16.Coder {
 		var c rsec16.Coder
 		var err error
 		if kind == 0 {
@@ -123,6 +149,7 @@ func coderSchedules(r *Run) {
 		}
 		return c
 	}
+	_ = mkOld
 	kindName := []string{"cauchy", "par2-vandermonde"}[kind]
 	data := genShards(r, d, length)
 	spec := SchedSpec{Mode: sched.Drive, Strategy: t.Draw(stratCount, "strategy")}
@@ -290,7 +317,8 @@ func par2GoroutineInvariance(r *Run) {
 	state := w.Disk.Clone()
 	wr := *w
 	wr.Disk = state.Clone()
-	r1 := r.Repair2(&wr, w.Index, 1, false, nil, SchedSpec{})
+	dc := t.Bool(1, 2, "doublecheck")
+	r1 := r.Repair2(&wr, w.Index, 1, dc, nil, SchedSpec{})
 	r.noPanic(r1)
 	after1 := wr.Disk.Snapshot()
 	for i := 0; i < n; i++ {
@@ -298,7 +326,7 @@ func par2GoroutineInvariance(r *Run) {
 		w2.Disk = state.Clone()
 		g := gs[t.Draw(len(gs), "g-repair")]
 		spec := SchedSpec{Mode: sched.Drive, Strategy: t.Draw(stratCount, "strategy")}
-		r2 := r.Repair2(&w2, w.Index, g, false, nil, spec)
+		r2 := r.Repair2(&w2, w.Index, g, dc, nil, spec)
 		r.noPanic(r2)
 		for _, v := range r2.SchedV {
 			r.Violate(v.Kind, "Repair G=%d: %s", g, v.Detail)
@@ -393,4 +421,18 @@ func coderRaceBatch(r *Run) {
 	}
 	r.Class = "race-batch GOMAXPROCS=" + procs
 	r.Nontriv = true
+}
+
+func mk0(r *Run, kind, d, p, g int) rsec16.Coder {
+	var c rsec16.Coder
+	var err error
+	if kind == 0 {
+		c, err = rsec16.NewCoderCauchy(d, p, g)
+	} else {
+		c, err = rsec16.NewCoderPAR2Vandermonde(d, p, g)
+	}
+	if err != nil {
+		r.Violate("coder-construction", "new coder(%d,%d,%d): %v", d, p, g, err)
+	}
+	return c
 }
